@@ -58,7 +58,7 @@ CHECKS = {
          'C02_count/tuples_mem: without & one selector per parent, with k ampersands one per k-tuple of parents (all of them). C02_amp: every & is '
          'replaced textually, in order, by the tuple member; C02_desc/C02_comb: descendant space by default, dropped before a written combinator. '
          'Tie: the model (list order included) equals the real output on a 3x42x3 placement catalogue under two layouts and on random trees to depth 7; '
-         'an independent string-level oracle checks the property itself (selector set, rule order, declarations).'),
+         'an independent string-level oracle checks the property itself (selector set, rule order, declarations). Cross-model theorems (Props/Cross.lean): the models of variables, media and mixins are conservative extensions of this one on sheets without their own constructs.'),
    note=BASE_NOTE + ' Open known finding C02-star-amp. Fragment boundaries (element after &-suffix, * in the middle) are syntax errors of the front end and are not generated.'),
  'C03': dict(category='proof',
    technique='Lean 4: two-pass frame-stack model with lazy substitution, theorem model = lexical hoisted semantics under a decidable side condition; differential correspondence',
